@@ -35,8 +35,11 @@ CHECKS = {
     "type-only export emits nothing; and (relational) in every position where the compiler inspects the shape of an operand - typeof/delete "
     "operand, call callee, template tag, ++/-- operand, the optional-chain functions, inferred names, enum initialisers - compiling X and "
     "compiling `X as T` / `X!` produce the same builder calls and compiler calls for six operand shapes. Concrete annotated-vs-erased "
-    "program pairs are a replay route only. The parser's treatment of annotations (speculative parses, generics vs comparisons, "
-    "overloads, modifiers, declare) - most of the property - is not encodable and outside the claim.")),
+    "program pairs are a replay route only. Parser side, one kernel: every speculative parse of the type grammar that takes a lexer "
+    "checkpoint (`<T>x`, `f<T>(..)`, mapped / function types, the two peeks; other Parser/Lexer methods abstracted) has on every feasible "
+    "DECLINING path restored the lexer to the entry checkpoint and the entry current token, so a declined speculation cannot shift how "
+    "neighbouring tokens parse. What the speculations ACCEPT (generics vs comparisons, overloads, modifiers, declare) - most of the "
+    "property - is not encodable and outside the claim.")),
  'C04': dict(design='section 3, C04 (kernel changed: see DESIGN.md)', text=(
     "Kernel claim: TypeScript's enum auto-increment. Compiler::compile_enum_declaration is executed symbolically (BytecodeBuilder "
     "recorded as events) on two-member enums whose first member is any non-negative finite f64 literal, its negation, or absent: the value "
@@ -54,8 +57,13 @@ CHECKS = {
     "executed symbolically with AST vector lengths as unconstrained usize (loops abstracted to one arbitrary iteration, other Compiler "
     "methods havoc'd): no feasible arithmetic panic and no silent truncation for ANY construct size; RegisterAllocator::{alloc,free,"
     "reserve_range,save,restore} never panic from any allocator state; compile_enum_declaration never "
-    "panics for any numeric literal. The parser (recursion depth, speculative re-parsing), most of the lexer and 'bounded work' are "
-    "outside the claim.")),
+    "panics for any numeric literal. Lexer::advance keeps byte position / line / column exact over 3 (thorough 4) symbolic characters; "
+    "Lexer::checkpoint -> arbitrary scanning -> Lexer::restore is the identity on every position field and re-creates the character iterator "
+    "over source[current_pos..] (any lexer state, ASCII source <= 8 bytes); every speculative parse that takes a lexer checkpoint "
+    "(try_parse_angle_bracket_assertion, try_parse_call_with_type_args, try_parse_mapped_type, try_parse_function_type, peek_is, "
+    "peek_is_property_name; all other Parser/Lexer methods abstracted) has, on every feasible declining path, restored the lexer to the "
+    "entry checkpoint and put back the entry `current` (and `previous` where it was saved) before returning. The parser's recursion depth, "
+    "the COST of speculative re-parsing, most of the lexer and 'bounded work' are outside the claim.")),
  'C20': dict(design='section 3, C20', text=(
     "Kernel claim: source-map and stack-trace kernels. (a) For every sequence of up to 4 (thorough 6) BytecodeBuilder set_span/emit "
     "operations with symbolic spans and every instruction index, finish + BytecodeChunk::get_source_location returns the span current at "
